@@ -41,6 +41,13 @@ func newCommand(ctx context.Context, step dag.Step) (Executor, error) {
 		Setpgid: true,
 		Pgid:    0,
 	}
+	// When the context ends (the DAG's timeout) os/exec kills only the process
+	// it started. The step runs in its own process group: kill the whole group,
+	// otherwise the children of a shell step survive and, holding the step's
+	// output pipe, keep Wait (and with it the run) blocked until they exit.
+	cmd.Cancel = func() error {
+		return syscall.Kill(-cmd.Process.Pid, syscall.SIGKILL)
+	}
 
 	return &commandExecutor{
 		cmd: cmd,
